@@ -1,7 +1,7 @@
 """C14 — device copier delivers exactly the requested bytes and signals completion once."""
 from vlib import Rng
 
-RULE = ("family copier: QIODeviceCopier over scripted devices; random-access: contents 0..12 bytes exhaustively x block sizes 1..len+1 x "
+RULE = ("the block size changed between blocks (setBufferSize while the copy runs) and the copier started again after completion; family copier: QIODeviceCopier over scripted devices; random-access: contents 0..12 bytes exhaustively x block sizes 1..len+1 x "
         "ranges (from,to) in [0,len+2]^2 and 'to end', run to completion; stop() at every turn; failing open/seek/read/write; "
         "sequential: every arrival partition of short contents, stop at every point; longer contents sampled; non-trivial = distinct case")
 ASSUMPTIONS = ["a range on a sequential source is outside the documented API (setRange: 'if src device is not sequential')",
@@ -76,6 +76,33 @@ def cases(tier, seed, ctx=None):
                     continue
                 for frm, to in ((0, -1), (2, -1), (1, n - 2), (0, n + 1), (3, 3)):
                     yield ("copier", [c, 0, bs, frm, to, NOFAIL + [cap], [START] + [TURN] * (n + 3), [14, 0]], "ra-short-reads")
+    # the block size changed while the copy runs (setBufferSize between blocks, smaller and much larger), and the same copier
+    # started again after it finished, with another block size
+    def SETBS(n): return [5, n]
+    for n in (10, 40, 300, 5000) if tier == "quick" else (10, 40, 300, 5000, 70000):
+        c = content(n)
+        for _ in range(6 if tier == "quick" else 30):
+            bs0 = rng.choice([1, 3, 16, 64, 4096])
+            frm = rng.choice([0, 0, 1, bs0, n // 2])
+            to = rng.choice([-1, -1, n - 2, n + 3])
+            if to != -1 and to < frm:
+                to = -1
+            ops = [START]
+            budget = 0
+            cur = bs0
+            for _ in range(rng.range(1, 4)):
+                ops += [TURN] * rng.range(0, 2)
+                cur = rng.choice([1, 2, cur * 4, cur * 64, 65536, 262144, max(1, cur // 2)])
+                ops.append(SETBS(cur))
+            ops += [TURN] * (min(n, 400) + 4)       # enough turns whatever the sizes were (each block is at least one byte)
+            if n > 400:
+                ops.insert(1, SETBS(max(bs0, 64)))
+                ops += [SETBS(65536)] + [TURN] * (n // 64 + 4)
+            yield ("copier", [c, 0, bs0, frm, to, NOFAIL, ops, [14, 0]], "ra-blocksize-changed")
+            # restart after completion (the source position stays at the end unless a range start is set: nothing or the range again)
+            ops2 = [START] + [TURN] * (n // max(bs0, 1) + 3) + [SETBS(rng.choice([bs0 * 8, 65536, 1])), START] + [TURN] * (min(n, 400) + 4)
+            if n <= 400 or bs0 >= 16:
+                yield ("copier", [c, 0, bs0, frm, to, NOFAIL, ops2, [14, 9]], "ra-restarted")
     from vlib import all_partitions
     for n in range(0, (5 if tier == "quick" else 7)):
         c = content(n)
